@@ -542,9 +542,9 @@ func c02ExhMultiPolygon(c *fw.Ctx, idx int) {
 
 func init() {
 	fw.Register(&fw.Monitor{
-		ID:    "C02",
-		Title: "multi-part geometries behave as lists of their parts under any Push history",
-		Rule: "random operation histories (1..40 steps, thorough ..200) over {Push(part), Push(wrong-layout part), Reverse, Swap with a second tracked geometry, Clone-and-continue, SetLayout (collections), accessor sweep} on Polygon, MultiPoint, MultiLineString, MultiPolygon, GeometryCollection in XY..Layout(6); an executable list model is stepped in lock-step and the whole state (WF, flat/ends via FromGeom, Num*, every part accessor, Coords()) is compared after every operation; failed pushes must return ErrLayoutMismatch{Got,Want} and leave a bitwise-identical receiver; plus every MultiPolygon push history of length <=5 over {empty, 1-ring, 2-ring, all-empty-rings}. distinct_nontrivial = distinct (type, layout, empty/non-empty pattern of the first 8 pushes) with at least one non-empty part",
+		ID:     "C02",
+		Title:  "multi-part geometries behave as lists of their parts under any Push history",
+		Rule:   "random operation histories (1..40 steps, thorough ..200) over {Push(part), Push(wrong-layout part), Reverse, Swap with a second tracked geometry, Clone-and-continue, SetLayout (collections), accessor sweep} on Polygon, MultiPoint, MultiLineString, MultiPolygon, GeometryCollection in XY..Layout(6); an executable list model is stepped in lock-step and the whole state (WF, flat/ends via FromGeom, Num*, every part accessor, Coords()) is compared after every operation; failed pushes must return ErrLayoutMismatch{Got,Want} and leave a bitwise-identical receiver; plus every MultiPolygon push history of length <=5 over {empty, 1-ring, 2-ring, all-empty-rings}. distinct_nontrivial = distinct (type, layout, empty/non-empty pattern of the first 8 pushes) with at least one non-empty part",
 		Assume: []string{"list model in mon/c02.go; WF monitor"},
 		Classes: []fw.Class{
 			{Name: "histories", Quick: 30000, Thorough: 1000000, Run: c02History},
